@@ -4,7 +4,7 @@ from . import _bounded
 
 PROPERTIES = {
     "C12": dict(
-        modules=["contracts.c12_get_data"],
+        modules=["contracts.c12_get_data", "contracts.c02_documents"],
         explanation="get_data of the four bundled base clients against the decision table of the statement; loop-free apart "
                     "from one comprehension (handled by map extensionality), so the symbolic execution over full-domain "
                     "status/body inputs is a complete proof",
@@ -25,7 +25,7 @@ PROPERTIES = {
         assumptions=["bytes on the wire for multipart are httpx's", "interleavings inside httpx are outside this family"],
     ),
     "C06": dict(
-        modules=["contracts.c06_input_types", "contracts.c06_defaults", "contracts.c18_names"],
+        modules=["contracts.c06_input_types", "contracts.c06_defaults", "contracts.c18_names", "contracts.c09_pruning"],
         explanation="input type translator and default-literal translator against the image/coercion spec functions, by structural induction",
         assumptions=["acceptance/refusal of concrete values by the emitted annotations is pydantic's (assumed contract)"],
     ),
@@ -43,7 +43,7 @@ PROPERTIES = {
     ),
     "C18": dict(
         modules=["contracts.c18_names", "contracts.c04_modules"],
-        bounded=[_bounded.lazy("contracts.c18_names", "bounded_names")],
+        bounded=[_bounded.lazy("contracts.c18_names", "bounded_names"), _bounded.lazy("contracts.c18_names", "bounded_pairs")],
         explanation="process_name for all strings in SMT string theory; str_to_snake_case by exhaustive bounded enumeration",
         assumptions=["A_snake: assumed contract on str_to_snake_case (regex lookahead is outside the solvers' fragment), bounded stand-in only"],
     ),
@@ -57,7 +57,9 @@ PROPERTIES = {
     ),
     "C17": dict(
         modules=["contracts.c17_settings"],
-        explanation="configuration validators (raise iff constraint violated), header resolution with frame, section lookup",
+        bounded=[_bounded.lazy("contracts.e2e_config", "bounded_rejections")],
+        explanation="configuration validators (raise iff constraint violated), header resolution with frame, section lookup; the "
+                    "whole commands on single-constraint violations with a snapshot of the target tree by the end-to-end stand-in",
         assumptions=["schema validity is graphql-core's (assert_valid_schema); file system predicates are the OS's"],
     ),
     "C09": dict(
@@ -77,7 +79,7 @@ PROPERTIES = {
                  "ariadne_codegen.client_generators.custom_generator_utils", "ariadne_codegen.client_generators.arguments",
                  "ariadne_codegen.graphql_schema_generators.schema", "ariadne_codegen.graphql_schema_generators.named_types",
                  "ariadne_codegen.graphql_schema_generators.fields", "ariadne_codegen.graphql_schema_generators.directives"],
-        ord_replay=_bounded.lazy0("contracts.e2e_determinism", "replay_generation_hash_seeds"),
+        ord_replay=_bounded.lazy0("contracts.e2e_determinism", "replay_generation"),
         explanation="order-dependence obligations (set iteration must not reach emitted text) on the functions that handle sets",
         assumptions=["isort/black determinism; equality across two processes beyond order-independence is outside one call's contract"],
     ),
